@@ -78,6 +78,27 @@ structure RegistrySite where
                    -- string, an int …); "none": the operation has no key
   deriving DecidableEq, Repr
 
+/-- round 7: what a method of package `node` does with a value it read out of a context kept in a
+field of its own receiver (the environment a closure was DEFINED in — it lives as long as the
+closure, for a route handler as long as the server): `op` = `copy` (`X.SetVariableValue(var, v)`:
+the slot store that copies value types), `alias` (`X.SetIndexZVal(i, z)`: the callee's slot is the
+environment's slot; `guard = "byref"` iff under `if _, ok := ….(*VariableReference); ok`), `direct`
+(the pointer stored as is: `zv.Value = v`), `escape` (handed to another function) -/
+structure CaptureBind where
+  fn    : String
+  env   : String
+  op    : String
+  guard : String
+  text  : String
+  deriving DecidableEq, Repr
+
+/-- one case of the type switch of `runtime.(*Context).SetVariableValue`: the case type and the
+`Clone…` function applied before the store ("" = stored as is) -/
+structure SlotCopy where
+  typ   : String
+  clone : String
+  deriving DecidableEq, Repr
+
 structure Facts where
   cells           : List CellFact
   entries         : List EntryFact
@@ -88,6 +109,8 @@ structure Facts where
   depthGuards     : List DepthGuard -- every place that enters a process-wide counter of the VM
   vmCounters      : List VMCounter  -- numeric fields of the VM types
   registries      : List RegistrySite -- every use of a package-level map / sync.Map of std/net/http
+  captureBinds    : List CaptureBind  -- what closures do with values read from their definition-time environment
+  slotCopies      : List SlotCopy     -- the type switch of the slot store `(*Context).SetVariableValue`
   shape           : List String   -- places where the source no longer has the shape the translator understands
   deriving Repr
 
@@ -153,6 +176,34 @@ def Facts.nodeWriteViolations (f : Facts) : List String :=
       !(definitionMemo.contains (w.typ, w.field)) && !(sharedByDesign.contains (w.typ, w.field)))).map
     (fun w => "nodewrite:" ++ w.typ ++ "." ++ w.method ++ "." ++ w.field)).eraseDups
 
+/-! ### By-value captures copy every mutable kind of value
+
+A closure's definition-time environment outlives every call; the route handler is ONE closure for
+all requests.  A by-value capture must hand each call its own copy of every value that can be
+changed in place — arrays and `{k: v}` objects (value types of the language; the foreach cursor is
+part of the value) —, i.e. go through the slot store, and the slot store must clone these kinds.
+Scalars, closures and class instances (handles, shared by the language's design) need no copy. -/
+
+/-- the Go types of the values that are mutable in place and have value semantics -/
+def mutableValueTypes : List String := ["ArrayValue", "ObjectValue"]
+
+/-- does the slot store clone values of this Go type? -/
+def Facts.slotClones (f : Facts) (typ : String) : Bool :=
+  f.slotCopies.any (fun c => c.typ == typ && c.clone != "")
+
+def Facts.captureViolations (f : Facts) : List String :=
+  ((f.captureBinds.filter (fun b => b.op == "direct")).map
+      (fun b => "capture-stored-without-copy:" ++ b.fn ++ ":" ++ b.text)) ++
+  ((f.captureBinds.filter (fun b => b.op == "alias" && b.guard != "byref")).map
+      (fun b => "capture-aliased-without-reference:" ++ b.fn ++ ":" ++ b.text)) ++
+  ((f.captureBinds.filter (fun b => b.op == "escape")).map
+      (fun b => "capture-escapes:" ++ b.fn ++ ":" ++ b.text)) ++
+  ((f.captureBinds.filter (fun b => !(["copy", "alias", "direct", "escape"].contains b.op))).map
+      (fun b => "capture-unknown-op:" ++ b.fn ++ ":" ++ b.op)) ++
+  (if f.captureBinds.any (fun b => b.fn == "LambdaExpression.Call" && b.op == "copy") then []
+   else ["capture-binder-without-copying-store:LambdaExpression.Call"]) ++
+  ((mutableValueTypes.filter (fun t => !f.slotClones t)).map (fun t => "slot-store-does-not-copy:" ++ t))
+
 /-- the isolation violations visible in the facts: superglobals cached in package-level
 variables, cached variables the reset does not clear, any other package-level variable on
 the request path that is not keyed by the request, per-evaluation state stored in a syntax node,
@@ -164,6 +215,7 @@ def Facts.violations (f : Facts) : List String :=
   ((f.pkgVars.filter (fun v => !(requestKeyed.contains v) && !(processConstant.contains v) &&
       !(f.cells.any (fun c => c.vars.contains v.name)))).map (fun v => "pkgvar:" ++ v.pkg ++ "." ++ v.name)) ++
   f.nodeWriteViolations ++
+  f.captureViolations ++
   f.shape.map (fun s => "shape:" ++ s)
 
 /-! ### Registries of per-request state are keyed by the request's identity
